@@ -10,6 +10,16 @@ BASELINE_OFF = ("cd /repo && env -u CNES_PANDORA_VERIF /venv/bin/python -m pytes
 
 # id -> (technique, level text, level note, design ref)
 CLAIMED = {
+    "C08": (
+        "Metamorphic relation between two runs of the real pipeline (mirrored stereo problem), exact comparison",
+        "Exploration: generated pairs, intervals and legal pipelines with a validation step (filling, confidence "
+        "steps, cbca, refinement, filters before/after, repeated validation) are run as (L,R,[a,b]) and as "
+        "(R,L,[-b,-a]); right(A) must equal left(B) and left(A) equal right(B) on every product variable and band "
+        "name, bit for bit. Pipelines without validation must return an empty right dataset, and appending a "
+        "cross-check as last step must leave the left disparity map identical and change only bits 8/9.",
+        "Trusted: nothing but the harness dataset builders; both sides of the relation are the real code.",
+        "DESIGN.md §5 C08",
+    ),
     "C02": (
         "Hypothesis-generated image pairs vs. naive per-pixel matching-cost reference model",
         "Exploration: the matching-cost step is run through the machine on generated pairs (mono/multiband, masks with "
